@@ -69,7 +69,14 @@ def make_builtins(eng):
             z3.And(z3.Not(v.isnone), z3.BoolVal(isinstance(v.inner, VReal)))
         if n == "bool": return z3.BoolVal(isinstance(v, VBool))
         if n == "str": return z3.BoolVal(isinstance(v, VStr))
-        if n in ("list",): return z3.BoolVal(isinstance(v, VSeq))
+        if n in ("list",):
+            if isinstance(v, VSeq) and v.kind is not None:
+                return v.kind == 0
+            return z3.BoolVal(isinstance(v, VSeq))
+        if n in ("numpy.ndarray", "torch.Tensor"):
+            if isinstance(v, VSeq) and v.kind is not None:
+                return v.kind == (2 if n == "numpy.ndarray" else 1)
+            return z3.BoolVal(False)
         if n in ("tuple",): return z3.BoolVal(isinstance(v, VTuple))
         if isinstance(v, HObj):
             return z3.BoolVal(eng.is_subclass(v.cls, n))
@@ -90,6 +97,11 @@ def make_builtins(eng):
         if isinstance(v, VOpt): v = eng.unopt(v, st, None, "int() argument")
         if isinstance(v, (VInt, VBool)): return VInt(_e.to_int(v))
         if isinstance(v, VReal):
+            if getattr(v, "ratio", None) is not None:
+                a, b = v.ratio      # int(a / b) on ints: truncation towards zero (float rounding not modelled)
+                q = z3.If(a >= 0, a, -a) / z3.If(b >= 0, b, -b)
+                eng.used_trusted.add("assumption:int(a / b) on ints is exact truncation (true below 2**53)")
+                return VInt(z3.If((a >= 0) == (b > 0), q, -q))
             x = v.t
             return VInt(z3.If(x >= 0, z3.ToInt(x), -z3.ToInt(-x)))
         if isinstance(v, VAbs):
@@ -428,3 +440,12 @@ def _default_collate_obj():
 
 
 LIB_OBJECTS["torch.utils.data.default_collate"] = _default_collate_obj
+
+
+@lib("functools.partial")
+def _partial(args, kwargs, st, eng):
+    f, bound, bkw = args[0], list(args[1:]), dict(kwargs)
+
+    def fn(a, k, s, e):
+        return e.call(f, bound + list(a), dict(bkw, **k), s, None)
+    return VFunc("partial", fn)
